@@ -642,18 +642,29 @@ fn gen_hex_string(r: &mut Rng, valid_ssz: &[u8]) -> String {
         5 => {
             let mut s = format!("0x{}", h);
             if s.len() > 2 {
+                // one character that is not a hex digit; '+' and '-' are what integer parsers accept
                 let p = 2 + r.below(s.len() - 2);
-                s.replace_range(p..p + 1, "g");
+                let c = *r.pick(&["g", "+", "-", " ", "_", "G", "x", "+", "."]);
+                s.replace_range(p..p + 1, c);
+                if r.chance(1, 2) && p % 2 == 1 && c == "+" {
+                    // '+' in the first position of a byte pair
+                    let q = p - 1;
+                    if q >= 2 {
+                        let d = s[p..p + 1].to_string();
+                        s.replace_range(q..q + 1, &d);
+                        s.replace_range(p..p + 1, "1");
+                    }
+                }
             }
             s
         }
-        6 => "0x".into(),
+        6 => (*r.pick(&["0x", "0x+1", "0x-1", "0x+f", "0x1+", "0x 1", "0x0_"])).to_string(),
         7 => "".into(),
         8 => format!("0x{}ff", h),
         9 => format!(" 0x{}", h),
         10 => {
             let n = r.below(5);
-            let alphabet = ['0', 'x', 'X', '1', 'a', 'F', 'g'];
+            let alphabet = ['0', 'x', 'X', '1', 'a', 'F', 'g', '+', '-'];
             (0..n).map(|_| *r.pick(&alphabet)).collect()
         }
         _ => {
